@@ -15,7 +15,7 @@ EXTRA = [('far(X,Z) :- edge(X,Y), edge(Y,Z), active, not not X != Z. hop(X,Z) :-
 
 
 def corr(rng, quick):
-    return corr_duplication.run(rng, 60 if quick else 2500, corpus_limit=60 if quick else None)
+    return corr_duplication.run(rng, 140 if quick else 2500, corpus_limit=60 if quick else None)
 
 
 def semcond(rng, quick):
